@@ -37,4 +37,4 @@ PY
   rm -f $L
 }
 export -f run_one
-echo $IDS | tr ' ' '\n' | xargs -P 4 -I{} bash -c 'run_one {}'
+echo $IDS | tr ' ' '\n' | xargs -P ${EVAL_JOBS:-4} -I{} bash -c 'run_one {}'
